@@ -116,6 +116,13 @@ def run(run):
                                     er = h.call(op="extract", path=fp)
                                     extracted = er.get("query")
                                 stats["rule_file_layouts"] += 1
+                                # what a reader hands to the parser (the lines joined by blanks, C18_joined_lines) is again
+                                # a re-layout of the tight text: an instance of the relation C14_lex_layout is proved for
+                                if extracted is not None:
+                                    rel2 = d.call("relayout", tight, extracted)[0]
+                                    stats["reader_output_relation:" + rel2] += 1
+                                    if rel2 != "true":
+                                        outside.append(dict(tight=tight, layout=extracted, reader=path))
                                 r2 = h.call(op="query", graph=proj.name, q=extracted or "", output="json") if extracted is not None else dict(outcome="no-query")
                                 got2 = None
                                 if r2.get("outcome") == "ok":
